@@ -1064,3 +1064,21 @@ case("c16-inherited-keys-overlaid", "C16", "mutant", [(PL_, """            if ke
 """, """            if key == "_inherited_keys":
                 continue
 """)], "C16.R4")
+case("c03-refactor-nofm-comprehensions", "C03", "refactor", [(RD_, """    completed_ids: list[str] = []
+    failed_ids: list[str] = []
+    active_ids: list[str] = []
+
+    for upstream in upstream_stages:
+        if upstream is None:
+            continue
+        if upstream.status in CONTINUABLE_STATUSES:
+            completed_ids.append(upstream.id)
+        elif upstream.status in HALT_STATUSES:
+            failed_ids.append(upstream.id)
+        else:
+            active_ids.append(upstream.id)
+""", """    ups = [u for u in upstream_stages if u is not None]
+    completed_ids = [u.id for u in ups if u.status in CONTINUABLE_STATUSES]
+    failed_ids = [u.id for u in ups if u.status not in CONTINUABLE_STATUSES and u.status in HALT_STATUSES]
+    active_ids = [u.id for u in ups if u.status not in CONTINUABLE_STATUSES and u.status not in HALT_STATUSES]
+""")])
